@@ -84,6 +84,27 @@ class Loader(yaml.SafeLoader):
             node = self.__process_node(node, type(self).document_type)
         return node
 
+    def construct_object(self, node: yaml.Node, deep: bool = False) -> Any:
+        """Construct an object from a node, called by PyYAML.
+
+        PyYAML's constructors for the built-in scalar types assume that
+        the value matches the tag, which is not the case if the tag was
+        given explicitly (e.g. ``!!int abc``) or if the value is out of
+        range (``2001-13-45``). This reports those as a
+        RecognitionError rather than letting a ValueError, KeyError,
+        IndexError or AttributeError escape.
+        """
+        try:
+            return super().construct_object(node, deep)
+        except (ValueError, KeyError, IndexError, AttributeError) as e:
+            if (
+                    isinstance(node, yaml.ScalarNode) and
+                    node.tag.startswith('tag:yaml.org,2002:')):
+                raise RecognitionError(
+                        '{}\nInvalid value for a scalar of type {}: {}'.format(
+                            node.start_mark, node.tag[18:], e))
+            raise
+
     def __type_to_tag(self, type_: Type) -> str:
         """Convert a type to the corresponding YAML tag.
 
